@@ -4,6 +4,7 @@ import (
 	"bytes"
 	"encoding/json"
 	"errors"
+	"io"
 
 	jsonschema "github.com/santhosh-tekuri/jsonschema/v5"
 )
@@ -22,10 +23,17 @@ func (v Validator) ValidateData(data, schema []byte) error {
 		return err
 	}
 
+	// numbers are kept as written: decoded into float64, integers beyond 2^53
+	// would be rounded before they are compared with the schema
 	var c map[string]interface{}
-	err = json.Unmarshal(data, &c)
+	dec := json.NewDecoder(bytes.NewReader(data))
+	dec.UseNumber()
+	err = dec.Decode(&c)
 	if err != nil {
 		return err
+	}
+	if _, err = dec.Token(); err != io.EOF {
+		return errors.New("unexpected data after the JSON object")
 	}
 	// JSON null unmarshals into a nil map without an error
 	if c == nil {
